@@ -145,6 +145,15 @@ def worker(args):
     stats = {"cases": 0, "skipped_fit_error": 0, "na": 0, "classes": {}, "quant": 0, "ordinal": 0, "categorical": 0, "probes": 0,
              "rate_orders": 0, "features": 0, "kept": 0, "dropped": 0, "base_error": 0, "fit_errors": {}, "model_outcomes": {}, "tie_cases": 0}
     try:
+        # one large sample per chunk whose categorical target rates are closer than 1e-3 (exact order still required)
+        ds = fitgen.gen_close_rates(rng)
+        rc = {"ds": ds, "meta": {"what": "carver", "target": "binary", "class": "Discretizer", "kinds": ds["kinds"], "n": len(ds["X"]),
+                                 "cfg": {"min_freq": 0.05, "max_n_mod": 4, "dropna": True, "output_dtype": "str", "min_freq_mod": None, "sort_by": "cramerv"}}}
+        fs = check_rate_order(drv, rc, stats)
+        for f in fs:
+            f["case"] = {"meta": rc["meta"], "counts": ds["X"]["ca0"].value_counts().to_dict(), "ones": int(ds["y"].sum())}
+        fails += fs
+        stats["close_rate_cases"] = stats.get("close_rate_cases", 0) + 1
         for _ in range(n):
             r = c04.gen_case(rng)
             if r is None:
